@@ -208,7 +208,7 @@ def run_subs(job, res):
     tmp = tempfile.mkdtemp(prefix="vf-c17-")
     try:
         for h in range(job["n"]):
-            prefix = rng.choice(["in", "", "a/b", "1/2", "gw-1"])
+            prefix = rng.choice(["in", "", "a/b", "1/2", "gw-1", "gw-out/", "a//b/", "/", "1/", "x//y"])
             flavour = ["sync", "async"][h % 2]
             version = rng.choice(["2.0", "2.1", "2.2"])
             eng = mk(flavour, prefix, "out", version=version)
